@@ -319,13 +319,16 @@ double SQuIDS::GetExpectationValueD(const SU_vector& op, unsigned int nrh, doubl
     xit--;
   size_t xid=std::distance(x.begin(),xit);
 
+  //H0 is user code and may itself query a SQuIDS object which shares the per-thread buffer:
+  //evaluate it before anything is placed in the buffer
+  SU_vector h0=H0(xi,nrh);
   //linearly interpolate between the two states
   double f2=((xi-x[xid])/(x[xid+1]-x[xid]));
   double f1=1-f2;
   buf.state =f1*state[xid].rho[nrh];
   buf.state+=f2*state[xid+1].rho[nrh];
   //compute the evolved operator
-  buf.op=op.Evolve(H0(xi,nrh),t-t_ini);
+  buf.op=op.Evolve(h0,t-t_ini);
   //apply operator to state
   return buf.state*buf.op;
 }
@@ -341,14 +344,17 @@ double SQuIDS::GetExpectationValueD(const SU_vector& op, unsigned int nrh, doubl
     xit--;
   size_t xid=std::distance(x.begin(),xit);
 
+  //H0 is user code and may itself query a SQuIDS object which shares the per-thread buffer:
+  //evaluate it before anything is placed in the buffer
+  SU_vector h0=H0(xi,nrh);
   //linearly interpolate between the two states
   double f2=((xi-x[xid])/(x[xid+1]-x[xid]));
   double f1=1-f2;
   buf.state =f1*state[xid].rho[nrh];
   buf.state+=f2*state[xid+1].rho[nrh];
   //compute the evolved operator
-  std::unique_ptr<double[]> evol_buf(new double[H0(xi,nrh).GetEvolveBufferSize()]);
-  H0(xi,nrh).PrepareEvolve(evol_buf.get(),t-t_ini,scale,avr);
+  std::unique_ptr<double[]> evol_buf(new double[h0.GetEvolveBufferSize()]);
+  h0.PrepareEvolve(evol_buf.get(),t-t_ini,scale,avr);
   buf.op=op.Evolve(evol_buf.get());
   //apply operator to state
   return (buf.op*state[xid].rho[nrh])*f1 + (buf.op*state[xid+1].rho[nrh])*f2;
